@@ -97,44 +97,60 @@ theorem wf_flatten_lt (g : Graph) (hwf : g.wf = true) : ∀ k, k ∈ g.adj.flatt
   have h2 := List.all_eq_true.mp h1 k hkl
   simpa using h2
 
-theorem permuteIndices_spec (g : Graph) (p : List Nat) (hwf : g.wf = true) :
+theorem permuteIndices_spec (g : Graph) (p : List Nat) :
     Kern.permuteIndices (Arrays.ofGraph g) p =
-      if g.imageIdx = [] ∨ g.nImg ≠ p.length then none
+      if g.imageIdx = [] ∨ g.nImg ≠ p.length ∨ ¬ (∀ k, k ∈ g.imageIdx → k < p.length) then none
       else some (Arrays.ofGraph { g with adj := g.adj.map fun l => l.map fun k => p.getD k 0 }) := by
   unfold Kern.permuteIndices
   by_cases h1 : g.imageIdx = []
   · simp [Arrays.ofGraph, h1]
-  · by_cases h2 : g.nImg = p.length
-    · have hall : (Arrays.ofGraph g).idx.all (· < p.length) = true := by
-        simp only [Arrays.ofGraph, Graph.imageIdx, Array.all_eq_true_iff_forall_mem, List.mem_toArray,
-          decide_eq_true_eq]
-        intro k hk
-        have := wf_flatten_lt g hwf k hk
-        omega
-      have he : (Arrays.ofGraph g).idx.isEmpty = false := by
-        simp [Arrays.ofGraph, h1]
-      have hn : ((Arrays.ofGraph g).nImg != p.length) = false := by
+  · have he : (Arrays.ofGraph g).idx.isEmpty = false := by
+      simp [Arrays.ofGraph, h1]
+    by_cases h2 : g.nImg = p.length
+    · have hn : ((Arrays.ofGraph g).nImg != p.length) = false := by
         simp [Arrays.ofGraph, h2]
-      simp only [he, hn, hall, h1, h2]
-      simp [Arrays.ofGraph, Graph.domainPtr, Graph.imageIdx, List.map_flatten, Function.comp_def, h2]
-    · have he : (Arrays.ofGraph g).idx.isEmpty = false := by
-        simp [Arrays.ofGraph, h1]
-      have hn : ((Arrays.ofGraph g).nImg != p.length) = true := by
+      by_cases h3 : ∀ k, k ∈ g.imageIdx → k < p.length
+      · have hall : (Arrays.ofGraph g).idx.all (· < p.length) = true := by
+          simp only [Arrays.ofGraph, Array.all_eq_true_iff_forall_mem, List.mem_toArray, decide_eq_true_eq]
+          exact h3
+        have hc : ¬ (g.imageIdx = [] ∨ g.nImg ≠ p.length ∨ ¬ (∀ k, k ∈ g.imageIdx → k < p.length)) := by
+          intro h
+          rcases h with h | h | h
+          · exact h1 h
+          · exact h h2
+          · exact h h3
+        rw [if_neg hc]
+        simp only [he, hn, hall]
+        simp [Arrays.ofGraph, Graph.domainPtr, Graph.imageIdx, List.map_flatten, Function.comp_def]
+      · have hall : (Arrays.ofGraph g).idx.all (· < p.length) = false := by
+          rw [Bool.eq_false_iff]
+          intro hh
+          apply h3
+          simp only [Arrays.ofGraph, Array.all_eq_true_iff_forall_mem, List.mem_toArray, decide_eq_true_eq] at hh
+          exact hh
+        rw [if_pos (Or.inr (Or.inr h3))]
+        simp [he, hn, hall]
+    · have hn : ((Arrays.ofGraph g).nImg != p.length) = true := by
         simp [Arrays.ofGraph, h2]
-      simp [he, hn, h1, h2]
+      rw [if_pos (Or.inr (Or.inl h2))]
+      simp [he, hn]
 
 theorem permuteIndices_relabels (g : Graph) (p : List Nat) (hwf : g.wf = true) (hne : g.imageIdx ≠ [])
     (hp : p.length = g.nImg) :
     ∃ g' : Graph, Kern.permuteIndices (Arrays.ofGraph g) p = some (Arrays.ofGraph g') ∧
       g'.nImg = g.nImg ∧ g'.nDom = g.nDom ∧ ∀ i, g'.row i = (g.row i).map fun k => p.getD k 0 := by
   refine ⟨{ g with adj := g.adj.map fun l => l.map fun k => p.getD k 0 }, ?_, rfl, ?_, ?_⟩
-  · rw [permuteIndices_spec g p hwf]
-    have : ¬ (g.imageIdx = [] ∨ g.nImg ≠ p.length) := by
+  · rw [permuteIndices_spec g p]
+    have : ¬ (g.imageIdx = [] ∨ g.nImg ≠ p.length ∨ ¬ (∀ k, k ∈ g.imageIdx → k < p.length)) := by
       intro h
-      rcases h with h | h
+      rcases h with h | h | h
       · exact hne h
       · exact h hp.symm
-    simp [this]
+      · apply h
+        intro k hk
+        have := wf_flatten_lt g hwf k hk
+        omega
+    rw [if_neg this]
   · simp [Graph.nDom]
   · intro i
     simp only [Graph.row, List.getD_eq_getElem?_getD, List.getElem?_map]
@@ -196,7 +212,7 @@ theorem used_upTo (g : Graph) (m : Nat) (hm : m ≤ g.nDom) :
         omega
 
 set_option linter.unusedVariables false in
-theorem greedy_colors_contiguous (g : Graph) (hsq : g.nImg = g.nDom) (hwf : g.wf = true) :
+theorem greedy_colors_contiguous (g : Graph) :
     Coloring.numDistinct (Coloring.greedy g).coloring.toList = (Coloring.greedy g).numColors := by
   rw [C19L.color.greedy_eq]
   have hinv := C19L.color.GInv_upTo g g.nDom (Nat.le_refl _)
